@@ -93,9 +93,29 @@ def enc(step, src):
     return s
 
 
+def split_op(opname):
+    """'op@variant' -> (op, variant); variants: '' (plain), 'umask077' (the process runs under umask 077),
+    'linked' (the TOML destinations of the operation are symbolic links / have a second hard link)"""
+    base, _, variant = opname.partition("@")
+    return base, variant
+
+
+def link_away(w, path, how):
+    """make `path` (an existing regular file) a symlink to / a second hard link of a file under w/links"""
+    links = os.path.join(w, "links")
+    os.makedirs(links, exist_ok=True)
+    other = os.path.join(links, os.path.basename(path) + "." + how)
+    if how == "hard":
+        os.link(path, other)
+    else:
+        os.rename(path, other)
+        os.symlink(other, path)
+
+
 def prepare(root, opname):
     vp.rmtree(root)
     w = os.path.join(root, "w")
+    opname, variant = split_op(opname)
     kind, existing, _, _ = OPS[opname]
     if kind == "mon":
         layers, src = os.path.join(w, "layers"), os.path.join(w, "src")
@@ -109,6 +129,8 @@ def prepare(root, opname):
             mk_existing(layers, "L", existing)
         # a bystander layer that must never change
         mk_existing(layers, "other", 'v = "other"')
+        if variant == "linked" and existing:
+            link_away(w, os.path.join(layers, "L.toml"), "hard" if len(opname) % 2 else "sym")
         return None
     lay = phase.Layout(w)
     lay.script = os.path.join(root, "script.json")      # the harness' own files stay outside the watched prefix
@@ -126,6 +148,16 @@ def prepare(root, opname):
         for fn in ("launch.toml", "build.sbom.cdx.json"):
             with open(os.path.join(lay.layers, fn), "w") as f:
                 f.write("# stale, longer content\n" * 20)
+    if variant == "linked":
+        if OPS[opname][3] == "detect":
+            link_away(w, lay.plan, "hard")
+        else:
+            for fn, how in (("launch.toml", "sym"), ("store.toml", "hard")):
+                p = os.path.join(lay.layers, fn)
+                if not os.path.exists(p):
+                    with open(p, "w") as f:
+                        f.write('[metadata]\nleft = "by an earlier build"\n' if fn == "store.toml" else "# left by an earlier build\n")
+                link_away(w, p, how)
     return lay
 
 
@@ -135,10 +167,12 @@ def execute(root, opname, shim, mode, k=0, err=5):
     w = os.path.join(root, "w")
     log = os.path.join(root, "trace.log")
     env = {"LD_PRELOAD": shim, "VP_SHIM_PREFIX": w, "VP_SHIM_MODE": mode, "VP_SHIM_LOG": log, "VP_SHIM_CLASS": CLASSES, "VP_SHIM_K": str(k), "VP_SHIM_ERRNO": str(err)}
-    kind, _, pre, step = OPS[opname]
+    base_op, variant = split_op(opname)
+    kind, _, pre, step = OPS[base_op]
+    um = 0o077 if variant == "umask077" else 0o022
     if kind == "mon":
         env["VP_SHIM_ARMED"] = "0"
-        mon = vp.Mon("layers", env=env)
+        mon = vp.Mon("layers", env=env, umask=um)
         try:
             mon.call({"op": "init", "layers_dir": os.path.join(w, "layers"), "app_dir": os.path.join(root, "app"), "bp_dir": os.path.join(root, "bp")})
             for s in pre:
@@ -153,7 +187,7 @@ def execute(root, opname, shim, mode, k=0, err=5):
             mon.close()
         ok, detail = "err" not in rep, rep.get("detail", "")[:200]
     else:
-        st, marker, stderr = lay.run(step, lay.detect_args() if step == "detect" else lay.build_args(), lay.env(), BP_SCRIPT, extra_env=env)
+        st, marker, stderr = lay.run(step, lay.detect_args() if step == "detect" else lay.build_args(), lay.env(), BP_SCRIPT, extra_env=env, preexec=(lambda: os.umask(um)))
         ok, detail = st == 0, "exit %d %s" % (st, stderr[-150:])
     trace = vp.read_trace(log)
     snap = vp.snapshot(w, lambda rel: rel in (b"script.json",) or rel.startswith(b"bp/bin"))
@@ -300,6 +334,8 @@ def run(tier, seed, work):
     res = vp.Result("C12", tier, seed, "fault_enumeration")
     shim = vp.build_shim()
     ops = QUICK_OPS if tier == "quick" else list(OPS)
+    # the same operations in two more environments: under umask 077, and with the TOML destinations being links
+    ops = ops + [o + "@umask077" for o in ops] + [o + "@linked" for o in ops if OPS[o][1] or OPS[o][0] == "bp"]
     errnos = ["EIO", "EACCES"] if tier == "quick" else ["EIO", "EACCES", "ENOSPC", "EPERM", "EROFS"]
     tasks = []
     for i, opname in enumerate(ops):
